@@ -168,7 +168,11 @@ def gen_fragset(R, names, all_atom, squash=True):
         for _ in range(nd):
             a = R.choice(atoms)
             # '!' only on neutral sp3 carbon so that the surviving atom of a merge is not ambiguous
-            ok_sq = squash and m.atoms[a]['element'] == 'C' and not m.atoms[a]['charge'] and \
+            # and never together with another descriptor on the same atom: two descriptor pairs between
+            # the same two atoms (one of them '!') have no defined meaning (one graph edge cannot hold both)
+            if any(x.endswith('!]') or '[!' in x for x in d[a]):
+                continue
+            ok_sq = squash and not d[a] and m.atoms[a]['element'] == 'C' and not m.atoms[a]['charge'] and \
                 all(m.order(a, x) == 1 for x in m.nbrs(a))
             d[a].append(rand_desc(R, allow_squash=ok_sq))
         text, pos = molgen.render_fragment(R, m, atoms, d, style=dict(bracket=0.1 if all_atom else 0.0, omit_h=0.0, explicit_single=0.1 if all_atom else 0.0))
